@@ -3,6 +3,7 @@ package server
 import (
 	"database/sql"
 	"fmt"
+	"log"
 	"net"
 	"strings"
 
@@ -57,6 +58,13 @@ func (s *IMAPServer) SetTLSCertificates(certPath, keyPath string) {
 
 func (s *IMAPServer) HandleConnection(conn net.Conn) {
 	defer func() { _ = conn.Close() }()
+	// A panic in a command handler must cost this connection only, not the
+	// whole multi-user process (every connection runs on its own goroutine).
+	defer func() {
+		if r := recover(); r != nil {
+			log.Printf("panic while serving %s, closing connection: %v", conn.RemoteAddr(), r)
+		}
+	}()
 
 	state := &models.ClientState{
 		Authenticated: false,
@@ -168,6 +176,14 @@ func (s *IMAPServer) ExtractUsername(email string) string {
 
 // HandleSSLConnection handles SSL/TLS connections (delegates to auth package)
 func (s *IMAPServer) HandleSSLConnection(conn net.Conn) {
+	// A panic in a command handler must cost this connection only, not the
+	// whole multi-user process (every connection runs on its own goroutine).
+	defer func() {
+		if r := recover(); r != nil {
+			log.Printf("panic while serving %s, closing connection: %v", conn.RemoteAddr(), r)
+			_ = conn.Close()
+		}
+	}()
 	clientHandler := func(conn net.Conn, state *models.ClientState) {
 		// Send greeting for SSL/TLS connections
 		// TLS is active, so AUTH=PLAIN and LOGIN are allowed (no STARTTLS needed)
